@@ -30,7 +30,7 @@ pub fn operations_from_number(
         Setting::Spglib | Setting::Standard => *setting
             .0
             .hall_numbers()
-            .get((number - 1) as usize)
+            .get((number as usize).wrapping_sub(1))
             .ok_or(MoyoError::UnknownNumberError)?,
     };
     let entry = hall_symbol_entry(hall_number).ok_or(MoyoError::UnknownHallNumberError)?;
